@@ -88,7 +88,10 @@ class Gen:
             elif y < .8: body += ['y']
             else: body += self.local_op(set(), depth + 1, held + [m])
         style = r.random()
-        if style < .34: return ['L%d' % m] + body + ['U%d' % m]
+        if style < .15:
+            # try once: skipped when the mutex is busy — the body may only touch the counters
+            return ['Q%d(' % m] + [r.choice(['i%d' % m, 'i%d' % m, 'y']) for _ in range(r.randrange(1, 4))] + [')']
+        if style < .43: return ['L%d' % m] + body + ['U%d' % m]
         if style < .67: return ['T%d' % m] + body + ['U%d' % m]
         return ['W%d(' % m] + body + [')']
 
@@ -300,7 +303,7 @@ def corr(case, impl, model):
                 ci |= fin_set(a); cm |= fin_set(b)
                 if not ci <= cm:
                     return 'thread %d (%s): finalised %s while the model keeps it (rooted)' % (t, name, sorted(ci - cm))
-    if p['cells'] != mcells:
+    if p['cells'] != mcells and 'Q' not in case:      # a try-once section may be skipped: its counter is schedule dependent
         return 'counters %s, model %s' % (p['cells'], mcells)
     okp = joined_peeks(case)
     keep = lambda l: [x for n, x in enumerate(l) if n < len(okp) and okp[n]]
@@ -361,7 +364,7 @@ def top_statements(prog):
     out, cur, depth = [], [], 0
     for t in prog.split():
         cur.append(t)
-        if t[0] == '[' or t[0] == 'W':
+        if t[0] == '[' or t[0] == 'W' or t[0] == 'Q':
             depth += 1
         elif t == '}' or t == ')':
             depth -= 1
@@ -466,7 +469,7 @@ def run(ctx):
         'Strings that trigger automatic collections, library-raised KeyErrors, TLS-table-heavy rounds that make the '
         'thread\'s TLS table grow/rehash/shrink, rounds of forced collections), Thread objects either raw or owned by the '
         'main thread\'s collector (flag g, half of the cases), critical sections by lock/unlock, '
-        'trylock loops and with-blocks (nested in lock order) with non-atomic counter increments, join + read of the '
+        'trylock loops, try-once sections (skipped when busy) and with-blocks (nested in lock order) with non-atomic counter increments, join + read of the '
         'joined thread\'s trace; sched_yield/nanosleep injected between instructions by the case seed.  Every worker '
         'program runs alone first, then all together; the schedule is whatever the kernel produces.  A case is '
         'non-trivial when the harness measured at least two threads inside their programs at the same time '
@@ -506,6 +509,9 @@ def run(ctx):
                 if r2:
                     out[n] = r2[0]
         for o in out:
+            q = re.search(r'qskip=(\d+)', o)
+            if q:
+                stats['tryonce_sections_refused'] = stats.get('tryonce_sections_refused', 0) + int(q.group(1))
             m = re.search(r'miss=(\d+) maxpar=(\d+)', o)
             if m:
                 ms, mp = int(m.group(1)), int(m.group(2))
@@ -551,6 +557,8 @@ def run(ctx):
             if not a.endswith('# ok') or not s.endswith('# ok'):
                 ctx.cov['filtered_out'] = ctx.cov.get('filtered_out', 0) + 1
                 continue
+            if 'Q' in c:     # counters depend on which try-once sections were refused under the schedule
+                a, b, s = (' # '.join(x.split(' # ')[:1] + x.split(' # ')[2:]) for x in (a, b, s))
             if a != b or a != s:
                 if getattr(ctx, 'proof_broken', None):
                     # the theorems no longer hold for the regenerated parameters: expected, keep searching
